@@ -392,7 +392,7 @@ def run_daemon(impl, scn, marker=True, chunking=None, logs=None, extra_env=None,
         env = dict(SAN_ENV)
         if extra_env: env.update(extra_env)
         res = DaemonResult()
-        has_reload = any(it[0] == 'R' for it in scn.items)
+        has_reload = any(it[0] in ('R', 'W') for it in scn.items)
         argv = [str(impl / "iauthd-c"), "-n", "-f", str(conf)]
         if not has_reload and chunking is None:
             inp = MARK if marker else b""
@@ -430,6 +430,11 @@ def run_daemon(impl, scn, marker=True, chunking=None, logs=None, extra_env=None,
                 for it in scn.items:
                     if it[0] == 'L':
                         send(it[1] + b"\n" + (MARK if marker else b"")); nmark += 1 if marker else 0
+                    elif it[0] == 'W':
+                        pump(nmark)          # real time passes: whatever a timer makes the daemon print belongs to this item
+                        time.sleep(it[1])
+                        send(MARK); nmark += 1
+                        pump(nmark)
                     else:
                         pump(nmark)      # everything before the reload has been processed
                         nreload += 1
@@ -566,6 +571,35 @@ def corpus():
     c.append(Scn(True, False, many, [], 0, L("5 C 1.2.3.4 1 10.0.0.1 6667", "5 P :+x a b", "-1 X s41.x 5_1 :OK acct:1", "-1 X s42.x 5_1 :NO not configured", "5 H") + L(*["-1 X s%02d.x 5_1 :OK" % k for k in range(10, 41)]) + L("5 D"), "thirty-six services: all thirty-two answer"))
     c.append(Scn(True, False, many, [], 0, L("5 C 1.2.3.4 1 10.0.0.1 6667", "5 P :+x a b", "-1 X s42.x 5_1 :OK", "-1 X s10.x 5_1 :NO refused by the first service") + L(*["-1 X s%02d.x 5_1 :OK" % k for k in range(11, 46)]) + L("5 H", "5 D"), "thirty-six services: refusal after an answer from the entry that would share its bit"))
     c.append(Scn(True, False, [('s10.x', 'login')], [], 0, L("5 C 1.2.3.4 1 10.0.0.1 6667") + [('R', many, [], 0)] + L("5 P :+x a b", "-1 X s45.x 5_1 :OK", "-1 X s10.x 5_1 :NO no", "6 C 1.2.3.5 1 10.0.0.1 6667", "6 H"), "reload from one service to thirty-six"))
+    # ---- histories that need a COMBINATION of conditions (round 6 of the seeded changes) ----
+    abc = [('a.svc', 'login'), ('b.svc', 'login'), ('c.svc', 'login')]
+    # a reload removes an idle service in the middle of the vector (and adds one) while clients await a higher slot: slots must not move
+    for new in ([('a.svc', 'login'), ('c.svc', 'login'), ('d.svc', 'login')], [('a.svc', 'login'), ('c.svc', 'login')], [('b.svc', 'login'), ('c.svc', 'login')], [('c.svc', 'login')]):
+        c.append(Scn(True, False, abc, [], 0, L("5 C 1.2.3.5 1 10.0.0.1 6667", "6 C 1.2.3.6 1 10.0.0.1 6667", "5 P :+x alice pw", "6 P :+x bob pw", "-1 X a.svc 5_1 :OK alice:5", "-1 X b.svc 5_1 :OK", "-1 X a.svc 6_2 :OK", "-1 X b.svc 6_2 :OK bob:6") +
+                     [('R', new, [], 0)] + L("-1 X d.svc 5_1 :OK mallory", "-1 X a.svc 5_1 :OK mallory2", "5 N h.example.org", "5 u id", "5 n Nick", "5 U u :r", "-1 X c.svc 5_1 :OK", "6 H", "-1 X c.svc 6_2 :NO no", "7 C 1.2.3.7 1 10.0.0.1 6667", "7 P :+x carol pw", "7 H"),
+                     "reload removes a middle service (new table %s) while two clients await the last one" % ",".join(n_ for n_, _ in new)))
+    # the same in the middle of a registration, with protocols that need different data (a query that is still to be sent after the reload)
+    mix = [('auth.svc', 'login'), ('drone.svc', 'dronecheck'), ('ipr.svc', 'login-ipr')]
+    for new in (mix[1:], [mix[0], mix[2]], mix[2:], mix[:2]):
+        c.append(Scn(True, False, mix, [], 0, L("1 C 10.0.0.1 40001 10.0.0.9 6667", "1 P :+x alice s3cret", "-1 X auth.svc 1_1 :OK alice:1") + [('R', new, [], 0)] +
+                     L("1 N host.example.com", "1 u ident", "1 n nick", "1 U user :Real Name", "-1 X drone.svc 1_1 :OK", "-1 X ipr.svc 1_1 :OK", "1 H", "2 C 10.0.0.2 40002 10.0.0.9 6667", "2 H"),
+                     "reload in the middle of a registration (new table %s)" % ",".join(n_ for n_, _ in new)))
+    # a MORE answer forwarded while another query is out, then a reload that drops the challenging service before its final reply
+    ld = [('drone.svc', 'dronecheck'), ('login.svc', 'login')]
+    for fin in ("OK joeacct", "NO wrong word", "AGAIN once more"):
+        c.append(Scn(True, False, ld, [], 0, L("5 C 10.1.2.3 40000 10.0.0.9 6667", "5 N client.example.net", "5 u joe", "5 n Joe", "5 U joe :Joe User", "5 P :+x joeacct secret", "-1 X login.svc 5_1 :MORE say-the-magic-word", "5 P :please") +
+                     [('R', ld[:1], [], 0)] + L("-1 X login.svc 5_1 :" + fin, "-1 X drone.svc 5_1 :OK", "5 H", "5 D"), "MORE continuation with another query out, then the challenging service is dropped (%s)" % fin[:2]))
+    # a client accepted by its timeout after S had answered it; another client still awaits S; a reload drops S; S then answers the waiting one
+    ad = [('auth.svc', 'login'), ('drone.svc', 'dronecheck')]
+    for fin in ("NO You look like a drone", "OK"):
+        c.append(Scn(True, False, ad, [], 3600, L("1 C 10.0.0.1 1111 10.0.0.9 6667", "1 N h1.example.org", "1 u id1", "1 n Nick1", "1 U u1 :r", "1 P :+x alice secret", "-1 X drone.svc 1_1 :OK",
+                       "2 C 10.0.0.2 2222 10.0.0.9 6667", "2 N h2.example.org", "2 u id2", "2 n Nick2", "2 U u2 :r", "1 ! timeout") +
+                     [('R', [('auth.svc', 'login'), ('drone2.svc', 'dronecheck')], [], 3600)] + L("-1 X drone.svc 2_2 :" + fin, "2 H", "2 ! timeout", "2 D"), "timed-out client, another one awaiting the same service, reload drops it, then its answer (%s)" % fin[:2]))
+    # timeout while still registering (data missing), then the stragglers answer one after the other; the rule names the later one
+    r3 = [dict(name='r10_C', xreply_ok='c.svc', account='al*', **{'class': 'via-c'}), dict(name='R20_b', xreply_ok='b.svc', **{'class': 'via-b'}), dict(name='r90_rest', **{'class': 'plain'})]
+    for order in (("b.svc", "c.svc"), ("c.svc", "b.svc")):
+        c.append(Scn(True, True, abc, r3, 3600, L("7 C 192.0.2.7 5007 10.0.0.9 6667", "7 P :+x alan pw", "-1 X a.svc 7_1 :OK", "7 ! timeout", "-1 X %s 7_1 :OK alan:17" % order[0], "-1 X %s 7_1 :OK alan:18" % order[1],
+                       "7 N h7.example.org", "7 u id7", "7 n Nick7", "7 U u7 :r", "7 D"), "timeout while data are missing, then two stragglers (%s first)" % order[0]))
     return c
 
 def mode_family():
@@ -593,6 +627,95 @@ def mode_family():
                             ls += ["5 H", "-1 X a.svc 5_1 :OK late:3", "5 D"]
                             out.append(Scn(True, False, svcs, [], 0, L(*ls), "mode family %s / %s, first answer %s, second %s, data %s" % (m1, m2, r1, r2, "first" if early else "last")))
     return out
+
+def slot_reuse_history():
+    """D30 (open finding): a.svc answers client 5 and is then dropped by a reload (its slot is released: nobody awaits it); a second
+       reload adds d.svc, which takes that slot; client 5, still registering, carries the bits of the old occupant"""
+    rules = [dict(name='10-viad', xreply_ok='d.svc', **{'class': 'viaD'}), dict(name='20-rest', **{'class': 'rest'})]
+    return Scn(True, True, [('a.svc', 'login')], rules, 0,
+               L("5 C 1.2.3.4 1 10.0.0.1 6667", "5 P :+x acct pw", "-1 X a.svc 5_1 :OK acct:1") + [('R', [], rules, 0), ('R', [('d.svc', 'dronecheck')], rules, 0)] +
+               L("5 N h.example.org", "5 u id", "5 n Nick", "5 U u :r", "5 D"), "a released slot is taken by a new service while a client still carries the old occupant's bits")
+
+# ------------------------------------------------------------------------------------------------
+# real timers: the same history once with real waiting (libevent's one-shot request timers fire by themselves) and once with the
+# expiry delivered as an event ('<id> ! timeout' where a deadline falls into a wait, for the instance announced at that time only)
+def rt_histories():
+    data = lambda i: ["%d N h%d.example.org" % (i, i), "%d u id%d" % (i, i), "%d n Nick%d" % (i, i), "%d U u%d :r" % (i, i)]
+    dr = [('d.svc', 'dronecheck')]; lg = [('l.svc', 'login')]
+    W = lambda s_: [('W', s_)]
+    H = []
+    H.append(("plain expiry", dr, 1, L("7 C 10.0.0.7 4007 10.0.0.9 6667", *data(7)) + W(1.4) + L("7 D")))
+    H.append(("id re-announced while live, the new instance decided, then the OLD deadline passes", dr, 1,
+              L("5 C 10.0.0.1 1111 10.0.0.9 6667", *data(5)) + W(0.5) + L("5 C 10.0.0.9 2222 10.0.0.9 6667", *data(5)) + L("-1 X d.svc 5_2 :OK") + W(0.9) + W(0.6)))
+    H.append(("id re-announced while live, the new instance still waiting when the OLD deadline passes", dr, 1,
+              L("5 C 10.0.0.1 1111 10.0.0.9 6667", *data(5)) + W(0.5) + L("5 C 2001:db8::7 2222 10.0.0.9 6667", "5 N h5.example.org", "5 P :+x acct pw") + W(0.9) + L("5 u id5", "5 n Nick5", "5 U u5 :r") + W(0.6) + L("5 D")))
+    H.append(("announced under a timeout, reload removes the timeout, the request ends, the old deadline passes", dr, 1,
+              L("1 C 10.0.0.1 4000 10.0.0.9 6667", *data(1)) + [('R', dr, [], 0)] + L("1 D", "2 C 10.0.0.2 4002 10.0.0.9 6667", *data(2)) + W(1.4) + L("2 D")))
+    H.append(("reload shortens the timeout between two announcements; only the younger client's timer expires", lg, 30,
+              L("5 C 10.0.0.5 4005 10.0.0.9 6667", "5 P :+x acct5 pw", *data(5)) + [('R', lg, [], 1)] + L("6 C 10.0.0.6 4006 10.0.0.9 6667", "6 P :+x acct6 pw", *data(6)) + W(1.4) + L("-1 X l.svc 5_1 :OK acct5", "5 D", "6 D")))
+    return H
+
+def rt_to_hook(items, T0):
+    """the history with every wait replaced by the expiry events that fall into it"""
+    t = 0.0; T = T0; inst = {}; out = []; groups = []
+    for it in items:
+        if it[0] == 'L':
+            toks = it[1].decode('latin1').split(' ')
+            if len(toks) >= 6 and toks[1] == 'C' and re.fullmatch(r"-?\d+", toks[0]):
+                inst[int(toks[0])] = dict(ta=t, T=T, fired=False)
+            out.append(it); groups.append([len(out) - 1])
+        elif it[0] == 'R':
+            T = it[3]; out.append(it); groups.append([len(out) - 1])
+        else:
+            due = sorted((v['ta'] + v['T'], k) for k, v in inst.items() if v['T'] > 0 and not v['fired'] and t < v['ta'] + v['T'] <= t + it[1])
+            g = []
+            for _, k in due:
+                inst[k]['fired'] = True; out.append(('L', b"%d ! timeout" % k)); g.append(len(out) - 1)
+            groups.append(g); t += it[1]
+    return out, groups
+
+def start_realtime(impl):
+    import threading
+    res = {}
+    def work(name, svcs, T0, items):
+        try:
+            real = run_daemon(impl, Scn(True, False, svcs, [], T0, items, name), timeout_s=40)
+            hitems, groups = rt_to_hook(items, T0)
+            hook = run_daemon(impl, Scn(True, False, svcs, [], T0, hitems, name + " (expiry as an event)"), timeout_s=40)
+            res[name] = (svcs, T0, items, real, hitems, groups, hook)
+        except Exception as e:
+            res[name] = e
+    ths = [threading.Thread(target=work, args=(n_, sv, t0, its)) for n_, sv, t0, its in rt_histories()]
+    for th in ths: th.start()
+    return ths, res
+
+def finish_realtime(chk, handle, what):
+    ths, res = handle
+    for th in ths: th.join()
+    for name, svcs, T0, items in rt_histories():
+        r = res.get(name)
+        chk.cov["evaluations"] += 1; chk.hist("real-time history")
+        if r is None or isinstance(r, Exception):
+            chk.violation("real-time history %r could not be run: %r" % (name, r), str(r), "rt:run", found_input=False); continue
+        svcs, T0, items, real, hitems, groups, hook = r
+        desc = "\n".join(("> " + it[1].decode('latin1')) if it[0] == 'L' else ("(%.1f s pass)" % it[1] if it[0] == 'W' else "RELOAD services=%r timeout=%r" % (it[1], it[3])) for it in items)
+        if real.rc != 0 or hook.rc != 0 or len(real.steps) != len(items):
+            chk.violation(what + "real-time history %r: the daemon failed (exit status %s / %s): %s" % (name, real.rc, hook.rc, (real.stderr or hook.stderr)[-500:].replace("\n", " | ")),
+                          "request timeout %d s, services %r\n%s\n\nstderr:\n%s" % (T0, svcs, desc, (real.stderr or hook.stderr)[-1500:]), "rt:" + name); continue
+        bad = None
+        for i, g in enumerate(groups):
+            exp = [l for j in g if j < len(hook.steps) for l in hook.steps[j][0]]
+            expn = hook.steps[g[-1]][1] if g and g[-1] < len(hook.steps) else None
+            if real.steps[i][0] != exp or (expn is not None and real.steps[i][1] != expn):
+                bad = (i, real.steps[i], exp, expn); break
+        if bad:
+            i, got, exp, expn = bad
+            it = items[i]
+            chk.violation(what + "with real timers (%s): at item %d (%s) the daemon prints %r (in use %s), the same history with the expiry delivered as an event gives %r (in use %s)" %
+                          (name, i, it[1].decode('latin1') if it[0] == 'L' else ("%.1f s pass" % it[1] if it[0] == 'W' else "reload"), got[0], got[1], exp, expn),
+                          "request timeout %d s, services %r\n%s\n\nreal timers, item by item:\n%s\n\nexpiry as an event:\n%s" % (T0, svcs, desc, "\n".join(repr(x) for x in real.steps), "\n".join(repr(x) for x in hook.steps)), "rt:" + name)
+        else:
+            chk.cov["traces_validated_against_impl"] += 1
 
 def fmt_steps(scn, steps):
     out = []
